@@ -305,6 +305,12 @@ class Gen:
             ty = r.choice([T_INT, T_INT, T_BOOL, T_STR, T_LINT, T_OBJ, T_OINT] + ([T_FLOAT] if self.allow_float else []))
             name = self.fresh()
             e = self.expr(ty, scopes, depth)
+            if len(scopes) > 2 and r.random() < 0.25:
+                # shadow a local of an enclosing scope (never a loop counter, never a global: V23)
+                outer = [n for sc in scopes[1:-1] for n, (t, w) in sc.items() if w and not n.startswith("c_") and n not in self.globals]
+                if outer:
+                    name = r.choice(outer)
+                    self.features.add("shadow")
             ann = f": {ty}" if r.random() < 0.3 and ty != T_OBJ else ""
             scopes[-1][name] = (ty, True)
             self.features.add("let")
@@ -427,6 +433,13 @@ class Gen:
         if c < 0.95 and self.allow_throw and (ctx.get("in_try") or ctx.get("may_throw_ok")) and r.random() < 0.3:
             self.features.add("throw-uncaught")
             return [f"if {self.expr(T_BOOL, scopes, 0, pure=True)} {{ throw(\"fatal \" + {self.atom(T_STR, scopes)}); }}"]
+        if self.allow_lambda and depth > 0 and self.r.random() < 0.25:
+            self.features.add("lambda")
+            fname = self.fresh("lam")
+            p = self.fresh("q")
+            body = self.expr(T_INT, [{p: (T_INT, False)}], 1, pure=True)
+            arg = self.expr(T_INT, scopes, d, pure=True)
+            return [f"let {fname} = fn({p}: int) -> int {{ {body} }};", f"println({fname}({arg}));"]
         if self.use_trigger and self.r.random() < 0.5:
             self.features.add("trigger")
             return [f"trigger on_tick at minute({self.expr(T_INT, scopes, d)});"]
